@@ -2,7 +2,7 @@
 (* Trace validation of the real binary's output against Obs_Stream (C01 C04 C14, and the *)
 (* per-run half of C02/C08/C10).  One event per run:                                      *)
 (*   [run, cfg, lines, rows, code, stderr]                                                *)
-(*   cfg   = [keep (markers kept), tabs, colorOnly, buf, hhFile, rel, wd (word-diff mode)] *)
+(*   cfg   = [keep (markers kept), tabs, colorOnly, buf, hhFile, rel, wd (word-diff mode), commitRaw] *)
 (*   lines = input history: [c, f, g, kd, pre, pay, bid]  (pre/pay: code points; bid: id *)
 (*           of the line's bytes after the normalisations C04 permits)                    *)
 (*   rows  = observed output rows: [t, vis, bid, fs, lab, mode, bin, frag]                *)
@@ -62,6 +62,8 @@ RowMatches(h, cfg, w, g) ==
     [] w.t \in {"raw", "rawopt"} -> \/ g.bid = line.bid   \* whatever it looks like: the same bytes
                                     \* an empty line: an empty row (in a combined hunk it is an unchanged line)
                                     \/ (line.c = "blank" /\ g.t \in {"blank", "zero"} /\ g.vis = <<>>)
+    \* (commit-style raw - the default -: the commit line is written as it came)
+    [] w.t = "commit" /\ cfg.commitRaw -> g.bid = line.bid
     [] w.t = "commit"  -> g.t = "commit" /\ g.vis = line.pay
     [] w.t \in BodyC   -> /\ g.t = w.t \/ (g.t = "blank" /\ WantVisAs(line, cfg, w.t) = <<>>)
                           /\ g.vis = WantVisAs(line, cfg, w.t)
@@ -126,7 +128,7 @@ Drifts(e) ==
            \* (rules are decoration rows on the observed side; passed-through text may carry colours of its own)
            p2 == SelectSeq(pr, LAMBDA r : ~BlankSource(e, r) /\ r.t # "bar")
            o2 == SelectSeq(e.rows, LAMBDA r : r.t \notin {"blank", "deco"} /\ ~(r.t \in BodyC /\ r.vis = <<>>))
-           Norm(t) == IF t \in {"styled", "raw", "rawopt"} THEN "raw" ELSE IF t = "subgone" THEN "minus" ELSE t   \* (the lone old commit is painted in the minus style)
+           Norm(t) == IF t \in {"styled", "raw", "rawopt"} THEN "raw" ELSE IF t = "subgone" THEN "minus" ELSE IF t = "commit" /\ e.cfg.commitRaw THEN "raw" ELSE t   \* (the lone old commit is painted in the minus style)
        IN [i \in DOMAIN p2 |-> Norm(p2[i].t)] # [i \in DOMAIN o2 |-> Norm(o2[i].t)]
 
 Init == l = 1 /\ failed = <<>> /\ drift = <<>>
